@@ -517,3 +517,62 @@ theorem stall_noninterference_aux (l : Nat) (ls : List (PLabel α)) (s t s' : Pi
 
 end
 end KC
+
+/-! ### what never changes for a node once it exists; the published sequence only grows -/
+namespace KC
+section
+variable {α : Type}
+
+theorem step_static (s : Pipe α) (l : PLabel α) (i : Nat) (hi : i < s.len) :
+    s.len ≤ (s.step l).len ∧ ((s.step l).node i).parent = (s.node i).parent ∧
+    ((s.step l).node i).attachedAt = (s.node i).attachedAt := by
+  cases l with
+  | publish e =>
+    simp only [Pipe.step]
+    refine ⟨Nat.le_refl _, ?_, ?_⟩ <;> (split <;> simp_all)
+  | forward p =>
+    simp only [Pipe.step]
+    cases (s.node p).q with
+    | nil => exact ⟨Nat.le_refl _, rfl, rfl⟩
+    | cons e rest =>
+      refine ⟨Nat.le_refl _, ?_, ?_⟩ <;>
+        (simp only; split
+         · simp_all
+         · split <;> simp_all)
+  | consume c =>
+    simp only [Pipe.step]
+    cases (s.node c).q with
+    | nil => exact ⟨Nat.le_refl _, rfl, rfl⟩
+    | cons e rest =>
+      refine ⟨Nat.le_refl _, ?_, ?_⟩ <;> (simp only; split <;> simp_all)
+  | attach p b =>
+    simp only [Pipe.step]
+    have : ¬ i = s.len := by omega
+    refine ⟨by omega, ?_, ?_⟩ <;> simp [this]
+
+theorem step_published (s : Pipe α) (l : PLabel α) : s.published <+: (s.step l).published := by
+  cases l with
+  | publish e => simp only [Pipe.step]; exact List.prefix_append _ _
+  | forward p =>
+    simp only [Pipe.step]
+    cases (s.node p).q <;> exact List.prefix_refl _
+  | consume c =>
+    simp only [Pipe.step]
+    cases (s.node c).q <;> exact List.prefix_refl _
+  | attach p b => exact List.prefix_refl _
+
+theorem run_static (s : Pipe α) (ls : List (PLabel α)) (s' : Pipe α) (h : s.run ls = some s') (i : Nat) (hi : i < s.len) :
+    s.len ≤ s'.len ∧ (s'.node i).parent = (s.node i).parent ∧ (s'.node i).attachedAt = (s.node i).attachedAt ∧
+    s.published <+: s'.published := by
+  induction ls generalizing s with
+  | nil => simp [Pipe.run] at h; subst h; exact ⟨Nat.le_refl _, rfl, rfl, List.prefix_refl _⟩
+  | cons l ls ih =>
+    simp only [Pipe.run] at h
+    split at h
+    · obtain ⟨h1, h2, h3⟩ := step_static s l i hi
+      obtain ⟨g1, g2, g3, g4⟩ := ih (s.step l) h (by omega)
+      exact ⟨by omega, by rw [g2, h2], by rw [g3, h3], (step_published s l).trans g4⟩
+    · cases h
+
+end
+end KC
